@@ -1,5 +1,6 @@
 import Driver.Pure
 import Driver.Seq
+import Driver.Crash
 import Qv.Spec.Image
 
 open Qv.Driver
@@ -35,4 +36,10 @@ def main (args : List String) : IO UInt32 := do
     runSeq dir lines stdout
     return 0
   | ["valid"] => validLoop stdin stdout; return 0
+  | ["crash", path, logPath, tier] =>
+    let lines ← IO.FS.lines path
+    let log ← IO.FS.lines logPath
+    let dir := (System.FilePath.parent path).map (·.toString) |>.getD "."
+    runCrash dir lines log (tier == "thorough") stdout
+    return 0
   | _ => IO.eprintln "usage: qvdrv pure < requests | qvdrv seq <file> | qvdrv valid < paths"; return 2
